@@ -284,7 +284,7 @@ pub fn run(args: &Args, sink: &mut Sink, rng: &mut Rng) {
     let rt = runtime();
     let mut s_pages = Stream::new("pages", REQ, "chk_pages", "(bool * N * N) * list (N * N * N)", "outcome (list (N * N) * N)");
     let mut s_sched = Stream::new("sched", REQ, "chk_sched", "list N * (bool * list range * list N)", "outcome (list N * list N)");
-    let mut s_read = Stream::new("read", REQ, "chk_read", "(N * list N) * (N * list range * list N) * N", "outcome (list (list range))");
+    let mut s_read = Stream::new("read", REQ, "chk_read", "(N * list N) * (N * list range * list N) * (N * bool)", "outcome (list (list range))");
     let mut s_struct = Stream::new("struct", REQ, "chk_struct", "list (list N)", "outcome (list (N * N))");
     let mut s_footer = Stream::new("footer", REQ, "chk_footer", "N * bytes", "outcome ((N * N * N) * list (N * N) * (N * N * N * N))");
     let mut s_tail = Stream::new("tail", REQ, "chk_tail", "N * list N * list (N * N) * N", "bytes");
@@ -527,7 +527,7 @@ pub fn run(args: &Args, sink: &mut Sink, rng: &mut Rng) {
             let obs = read_obs(&rt, &f, real_io, params, bs, blocking);
             let out = out_str(&obs, |batches| coq::list(batches.iter().map(|b| cpairs(&runs(b)))));
             let page_rows: Vec<u64> = f.pages[0].iter().map(|p| p.0).collect();
-            let inp = format!("(({}, {}), ({}, {}, {}), {})", total, coq::nlist(page_rows.iter()), tag, cranges(&ranges2), coq::nlist(idx2.iter()), bs);
+            let inp = format!("(({}, {}), ({}, {}, {}), ({}, {}))", total, coq::nlist(page_rows.iter()), tag, cranges(&ranges2), coq::nlist(idx2.iter()), bs, coq::b(blocking));
             sink.nontrivial(&inp);
             sink.count(&format!("unit:read:tag{tag}{}{}", if real_io { ":real-io" } else { "" }, if blocking { ":blocking" } else { "" }));
             s_read.push(inp, out, json!({"req": human, "tag": tag, "batch_size": bs, "ranges": ranges2.iter().map(|r| [r.start, r.end]).collect::<Vec<_>>(), "idx": idx2, "real_io": real_io, "blocking": blocking}));
